@@ -8,6 +8,20 @@ ROOT = os.path.dirname(os.path.dirname(os.path.abspath(__file__)))
 props = [json.loads(l) for l in open(os.path.join(ROOT, "properties.jsonl"))]
 
 CHECKS = {
+    "C12": dict(
+        text="Trees.tla writes merge, rewrite and repair twice - level by level as the code walks and as the property reads - and "
+             "MCTrees checks over all trees of depth 2 over two names (files / links / dirs, two mtimes; all pairs and repeated-tree triples "
+             "for merge, all hit sets for rewrite and repair) that both agree. Real commands on real repositories: merges of 2-4 snapshots "
+             "with overlapping names of differing types and names whose raw and escaped orders differ; rewrites with exclude-glob sets "
+             "(hits decided by the generator's own matcher) with / without --forget; repair-snapshots on undamaged repositories and after "
+             "the loss of a data or tree pack; copies into repositories with another key / compression / pack size, empty or partly "
+             "filled, in one or two rounds, incl. tree / data id collisions with the destination holding only one of the two. Inputs and "
+             "outputs are read back as flattened trees with digests of the really dumped content; TreesTrace.tla evaluates the property "
+             "side of Trees.tla on every record (IsMerge, exact removal, identity on undamaged, kept files keep their content, copies equal).",
+        note="Merge ordering: later mtime wins. Exclude globs restricted to forms the generator's matcher decides. Repair damage = loss of "
+             "one whole pack. Duplicate names in a produced directory are reported as DuplicateName.",
+        technique="TLC equivalence check of code-shaped vs property-shaped tree operations over all small trees; TLC validation of recorded real input/output trees",
+        design="4/C12"),
     "C11": dict(
         text="Parent.tla: the per-entry decision of a parent-based backup over every combination of current kind x parent node "
              "(absent / file / dir / link; same or different size, mtime, ctime, inode, content; blobs indexed or not) for one and two "
